@@ -19,6 +19,8 @@ import (
 	"strings"
 	"sync"
 
+	"github.com/jackc/pgx/v5"
+
 	"github.com/formancehq/ledger/internal/verif/minisql"
 )
 
@@ -36,6 +38,10 @@ type Stmt struct {
 	SQL string `json:"sql"`
 	// Err is the SQLSTATE returned ("" = success, "parse" = minisql rejected it).
 	Err string `json:"err,omitempty"`
+	// TieSensitive: an ORDER BY of the statement met rows with equal sort keys
+	// but different contents (SQL leaves their relative order unspecified; LeanPG
+	// keeps the input order).
+	TieSensitive bool `json:"tieSensitive,omitempty"`
 }
 
 type connector struct{ srv *Server }
@@ -129,7 +135,11 @@ func (c *conn) BeginTx(ctx context.Context, _ driver.TxOptions) (driver.Tx, erro
 type tx struct{ c *conn }
 
 func (t *tx) Commit() error {
-	_, err := t.c.run(context.Background(), "COMMIT")
+	r, err := t.c.run(context.Background(), "COMMIT")
+	if err == nil && r != nil && r.RolledBack {
+		// what pgx reports when COMMIT of a failed transaction answers ROLLBACK
+		return pgx.ErrTxCommitRollback
+	}
 	return err
 }
 func (t *tx) Rollback() error {
@@ -164,6 +174,9 @@ type Result struct {
 	Cols     []string
 	Rows     [][]driver.Value
 	Affected int64
+	Tie      bool
+	// RolledBack: COMMIT answered with the command tag ROLLBACK
+	RolledBack bool
 }
 
 // trackTxState follows BEGIN/COMMIT/ROLLBACK/SAVEPOINT text so that the log can
@@ -246,7 +259,10 @@ func (c *conn) runOne(ctx context.Context, q string) (*Result, error) {
 	if err != nil {
 		code = errCode(err)
 	}
-	srv.record(c, q, code)
+	idx := srv.record(c, q, code)
+	if res != nil && res.Tie {
+		srv.markTie(idx)
+	}
 	c.trackTxState(kind, err == nil)
 	return res, err
 }
